@@ -125,13 +125,28 @@ pub const NOPT: usize = 5;
 /// every state sits on side 1 / side 2 (it must not influence the states or their timestamps)
 pub static CMD_ENV: std::sync::atomic::AtomicU8 = std::sync::atomic::AtomicU8::new(0);
 pub static TIME_BASE: std::sync::atomic::AtomicI64 = std::sync::atomic::AtomicI64::new(-25);
+/// "split" pass: the (small) logical times are mapped order-preservingly onto the two ends of the
+/// i64 range — everything up to round 0's shared time sits just above i64::MIN, everything newer
+/// just below i64::MAX — so that the timestamps met in one update are further apart than i64::MAX
+pub static TIME_SPLIT: std::sync::atomic::AtomicBool = std::sync::atomic::AtomicBool::new(false);
+fn split_time(lt: i64) -> i64 {
+    if !TIME_SPLIT.load(std::sync::atomic::Ordering::Relaxed) {
+        return lt;
+    }
+    assert!((-1000..=1000).contains(&lt), "split_time: logical time out of range");
+    if lt <= -25 {
+        i64::MIN + (lt + 1000)
+    } else {
+        i64::MAX - (1000 - lt)
+    }
+}
 fn opt_time(round: usize, term: usize, opt: usize) -> i64 {
     let base = TIME_BASE.load(std::sync::atomic::Ordering::Relaxed) + 10 * round as i64;
-    match opt {
+    split_time(match opt {
         1 | 2 | 5 => base + 1 + term as i64,
         3 | 6 => base,
         _ => base - 12,
-    }
+    })
 }
 /// options 5 and 6 (thorough tier): A newest / B at the shared time written *directly into the
 /// device terminal* even when it is connected to an external terminal
@@ -700,7 +715,7 @@ fn forward_factor(k: Kind) -> f64 {
 fn chain_time(k: usize) -> i64 {
     let b = TIME_BASE.load(std::sync::atomic::Ordering::Relaxed);
     if b < 0 {
-        -30 + 10 * k as i64
+        split_time(-30 + 10 * k as i64)
     } else {
         b + 3 * k as i64
     }
@@ -871,6 +886,17 @@ fn state_engines(ctx: &Ctx, time_only: bool, tag: &str) -> Vec<Eng> {
     }
     TIME_BASE.store(-25, std::sync::atomic::Ordering::SeqCst);
     e1.notes.push("a second pass (depth 2) uses round base 1.5e9 ns: timestamps a few ns apart at a magnitude where f32 seconds cannot tell them apart".into());
+    // third pass: timestamps at the two ends of the i64 range
+    TIME_SPLIT.store(true, std::sync::atomic::Ordering::SeqCst);
+    for &k in &kinds {
+        explore(&mut e1, k, 2, Mode::State, time_only, budget);
+    }
+    explore(&mut e2, Kind::Axle(3), 1, Mode::State, time_only, budget);
+    for m in 0..4u8 {
+        explore(&mut e2, Kind::Diff(m), 1, Mode::State, time_only, budget);
+    }
+    TIME_SPLIT.store(false, std::sync::atomic::Ordering::SeqCst);
+    e1.notes.push("a third pass (depth 2; 3-terminal devices depth 1) maps the same logical times onto the two ends of the i64 range (older data just above i64::MIN, newer just below i64::MAX): timestamps further apart than i64::MAX".into());
     e2.bounds = format!("3-terminal devices: depth {} (125^{} round sequences x 8 connection subsets); axles N=4: depth {}, N=5,6: depth 1 (5^N options x 2^N subsets)", d3, d3, if deep { 2 } else { 1 });
     vec![e1, e2]
 }
@@ -917,7 +943,18 @@ fn command_engines(ctx: &Ctx, time_only: bool, tag: &str) -> Vec<Eng> {
         explore(&mut e1, Kind::Axle(n), if n == 2 { 2 } else { 1 }, Mode::Command, time_only, budget);
     }
     TIME_BASE.store(-25, std::sync::atomic::Ordering::SeqCst);
-    e1.bounds = format!("2-terminal devices depth {}, 3-terminal depth {}, axles 4..6 shallower; plus 8-round sequences with few non-empty rounds; plus a depth-2 pass with round base 1.5e9 ns (timestamps a few ns apart, indistinguishable in f32 seconds)", d2, d3);
+    TIME_SPLIT.store(true, std::sync::atomic::Ordering::SeqCst);
+    for &k in &kinds {
+        explore(&mut e1, k, 2, Mode::Command, time_only, budget);
+    }
+    for n in 2..=3usize {
+        explore(&mut e1, Kind::Axle(n), if n == 2 { 2 } else { 1 }, Mode::Command, time_only, budget);
+    }
+    for m in 0..4u8 {
+        explore(&mut e1, Kind::Diff(m), 1, Mode::Command, time_only, budget);
+    }
+    TIME_SPLIT.store(false, std::sync::atomic::Ordering::SeqCst);
+    e1.bounds = format!("2-terminal devices depth {}, 3-terminal depth {}, axles 4..6 shallower; plus 8-round sequences with few non-empty rounds; plus a depth-2 pass with round base 1.5e9 ns (timestamps a few ns apart, indistinguishable in f32 seconds); plus a depth-2 pass with the timestamps at the two ends of the i64 range (further apart than i64::MAX)", d2, d3);
     vec![e1]
 }
 
@@ -952,7 +989,10 @@ pub fn run(ctx: &Ctx, commands: bool) -> Vec<Eng> {
         TIME_BASE.store(1_500_000_000, std::sync::atomic::Ordering::SeqCst);
         chains(&mut e2, ml.min(3), rounds.min(5), budget);
         TIME_BASE.store(-25, std::sync::atomic::Ordering::SeqCst);
-        e2.notes.push("chains of up to 3 devices x 2^5 sequences are repeated with command times 1.5e9 + 3k ns".into());
+        TIME_SPLIT.store(true, std::sync::atomic::Ordering::SeqCst);
+        chains(&mut e2, ml.min(3), rounds.min(4), budget);
+        TIME_SPLIT.store(false, std::sync::atomic::Ordering::SeqCst);
+        e2.notes.push("chains of up to 3 devices x 2^5 sequences are repeated with command times 1.5e9 + 3k ns, and x 2^4 sequences with the first command just above i64::MIN and the later ones just below i64::MAX".into());
         v.push(e2);
         v
     }
